@@ -224,3 +224,194 @@ Proof.
     split; [exact Hnext|]. split; [exact HAn|]. split; [rewrite Hsv; exact Hsok|]. split; [rewrite Hqu; exact Hq1|].
     intros Hq0. rewrite <- (Hend Hq0). reflexivity.
 Qed.
+
+(* ---------------------------------------------------------------- AssembleWithContext in pieces *)
+(* the two branches of handleBytes and the rest of AssembleWithContext, copied from the model
+   (assemble_unfold below checks by conversion that they are the same terms) *)
+Definition asm_queue_body (v : variant) (s : st) (evn tg0 : list event) (h : half) (seq : Z) (g : segment)
+  : st * list event * bool :=
+  let lend_ := g_rst g || g_fin g in
+  let r := check_overlap v (h_queue h) (g_bytes g) seq (g_ts g) lend_ true in
+  let tags := map ETag (c2_tags r) in
+  if c2_panic r then (set_half s h, evn ++ tg0 ++ tags ++ [EPanic 1], true)
+  else
+    let pages1 := h_pages h - c2_rel r + c2_added r in
+    let used1 := s_used s - c2_rel r + c2_added r in
+    let h1 := mkHalf pages1 (h_saved h) (c2_queue r) (h_next h) (h_seen h) (h_closed h) in
+    if limit_hit (s_cfg s) pages1 used1 then
+      match c2_queue r with
+      | [] =>
+        (mkSt (s_cfg s) (s_exists s) h1 (s_rev_closed s) (s_rev_seen s) used1 (s_sid s) (s_ncalls s),
+         evn ++ tg0 ++ tags, false)
+      | p :: q' =>
+        let h2 := mkHalf pages1 (h_saved h) q' (h_next h) (h_seen h) (h_closed h) in
+        let '(s1, nextSeq, ev, pk) := send_st v s h2 used1 (CPage p) in
+        let s2 :=
+          if nextSeq =? INVALID then s1
+          else set_half s1 (set_next (s_half s1)
+                 (if g_fin g && negb (v_fin v) then sadd nextSeq 1 else nextSeq)) in
+        (s2, evn ++ tg0 ++ tags ++ ETag 12 :: ev, pk)
+      end
+    else
+      (mkSt (s_cfg s) (s_exists s) h1 (s_rev_closed s) (s_rev_seen s) used1 (s_sid s) (s_ncalls s),
+       evn ++ tg0 ++ tags, false).
+
+Definition asm_inorder_body (v : variant) (s : st) (evn tg0 : list event) (h : half) (seq : Z) (g : segment)
+  : st * list event * bool :=
+  let lend_ := g_rst g || g_fin g in
+  let '(b1, seq1, pk0) := overlap_existing v (h_next h) seq (g_bytes g) in
+  if pk0 then (set_half s h, evn ++ tg0 ++ [EPanic 2], true)
+  else
+    let r := check_overlap v (h_queue h) b1 seq1 (g_ts g) lend_ false in
+    let tags := map ETag (c2_tags r) ++
+                (if (0 <? zlen (g_bytes g)) && (zlen (c2_bytes r) =? 0) then [ETag 11] else []) in
+    if c2_panic r then (set_half s h, evn ++ tg0 ++ tags ++ [EPanic 3], true)
+    else
+      let pages1 := h_pages h - c2_rel r in
+      let used1 := s_used s - c2_rel r in
+      let h1 := mkHalf pages1 (h_saved h) (c2_queue r) (h_next h) (h_seen h) (h_closed h) in
+      if (0 <? zlen (c2_bytes r)) || lend_ || g_syn g then
+        let lp := mkLive (c2_bytes r) seq1 (g_syn g) lend_ (g_ts g) in
+        let '(s1, nextSeq, ev, pk) := send_st v s h1 used1 (CLive lp) in
+        let s2 :=
+          if nextSeq =? INVALID then s1
+          else set_half s1 (set_next (s_half s1) (if g_fin g then sadd nextSeq 1 else nextSeq)) in
+        (s2, evn ++ tg0 ++ tags ++ ev, pk)
+      else
+        (mkSt (s_cfg s) (s_exists s) h1 (s_rev_closed s) (s_rev_seen s) used1 (s_sid s) (s_ncalls s),
+         evn ++ tg0 ++ tags, false).
+
+Definition asm_body (v : variant) (s : st) (evn : list event) (g : segment) : st * list event * bool :=
+  let h0 := s_half s in
+  let h := mkHalf (h_pages h0) (h_saved h0) (h_queue h0) (h_next h0)
+                  (if h_seen h0 <? g_ts g then g_ts g else h_seen h0) (h_closed h0) in
+  let start := ((h_next h =? INVALID) && g_syn g) || g_force g in
+  if h_closed h then (set_half s h, evn, false)
+  else
+    let '(seq, next1, queue, tg0) :=
+      if h_next h =? INVALID then
+        if g_syn g then (sadd (g_seq g) 1, sadd (g_seq g) 1, false,
+                         (match h_queue h with [] => [] | _ => [ETag 18] end))
+        else if start then (g_seq g, g_seq g, false, [ETag 17])
+        else (g_seq g, INVALID, true, [])
+      else
+        let seq := if v_syn v && g_syn g then sadd (g_seq g) 1 else g_seq g in
+        (seq, h_next h, (diffv v (h_next h) seq >? 0), []) in
+    if queue then asm_queue_body v s evn tg0 (set_next h next1) seq g
+    else asm_inorder_body v s evn tg0 (set_next h next1) seq g.
+
+Lemma assemble_unfold : forall v s0 g,
+  assemble v s0 g =
+  if s_exists s0 then asm_body v s0 [] g
+  else asm_body v (mkSt (s_cfg s0) true (new_half (g_ts g)) false (g_ts g) (s_used s0)
+                        (Datatypes.S (s_sid s0)) (s_ncalls s0))
+                [ENew (Datatypes.S (s_sid s0))] g.
+Proof. intros. unfold assemble. destruct (s_exists s0); reflexivity. Qed.
+
+(* ---------------------------------------------------------------- the invariant *)
+Definition lo_of (kn : option (Z * Z)) : Z := match kn with None => 0 | Some (_, p) => p end.
+
+Definition half_ok (S : list Z) (i : Z) (kn : option (Z * Z)) (h : half) : Prop :=
+  h_closed h = false /\ qok S i (lo_of kn) HIS (h_queue h) /\
+  match kn with
+  | None => h_next h = INVALID /\ h_saved h = []
+  | Some (A, p) => h_next h = sq i p /\ 0 <= A /\ p <= zlen S /\ sok S i A p (h_saved h)
+  end.
+
+Definition ginv (c : cfg) (S : list Z) (i : Z) (g : gst) (st : st) : Prop :=
+  s_cfg st = c /\
+  match g with
+  | GDead => s_exists st = false
+  | GLive kn en => s_exists st = true /\ h_closed (s_half st) = en /\ (en = false -> half_ok S i kn (s_half st))
+  end.
+
+Lemma limit_hit_on : forall c x y, limit_hit c x y = true -> limits_on c = true.
+Proof. intros c x y. unfold limit_hit, limits_on. lia. Qed.
+
+Lemma half_ok_known : forall S i kn h a, half_ok S i kn h -> lo_of kn <= a -> known_ok S i h kn a.
+Proof.
+  intros S i kn h a (_ & _ & H) Ha. destruct kn as [(A, p)|]; cbn [known_ok lo_of] in *.
+  - destruct H as (H1 & H2 & H3 & H4). auto.
+  - exact H.
+Qed.
+
+(* the state after deliver, with nextSeq stored: the invariant *)
+Lemma after_deliver : forall S i c s1 e' g' N,
+  s_cfg s1 = c -> e' <= zlen S ->
+  match g' with
+  | GDead => s_exists s1 = false
+  | GLive kn' en =>
+    s_exists s1 = true /\ h_closed (s_half s1) = en /\
+    exists A', kn' = Some (A', e') /\
+      (en = false -> N = sq i e' /\ 0 <= A' /\ sok S i A' e' (h_saved (s_half s1)) /\
+                     qok S i (e' + 1) HIS (h_queue (s_half s1)))
+  end ->
+  ginv c S i g' (set_half s1 (set_next (s_half s1) N)).
+Proof.
+  intros S i c s1 e' g' N Hc He H. unfold ginv. cbn [set_half s_cfg]. split; [exact Hc|].
+  destruct g' as [|kn' en]; cbn [set_half s_exists s_half set_next h_closed].
+  - exact H.
+  - destruct H as (H1 & H2 & A' & Hk & H3). split; [exact H1|]. split; [exact H2|].
+    intros Hen. destruct (H3 Hen) as (HN & HA & Hs & Hq). subst kn' N.
+    unfold half_ok. cbn [set_next h_closed h_queue h_next h_saved lo_of].
+    split; [congruence|]. split; [eapply qok_weaken; eauto; lia|]. auto.
+Qed.
+
+(* ---------------------------------------------------------------- queue branch *)
+Lemma asm_queue_ok : forall S i c s evn l0 h kn o n g,
+  zlen S < HIS -> s_exists s = true -> s_cfg s = c -> half_ok S i kn h ->
+  lo_of kn <= o -> 0 <= n -> o + n <= zlen S -> g_bytes g = sub S o n ->
+  exists st' ev g',
+    asm_queue_body fullv s evn (map ETag l0) h (sq i o) g = (st', evn ++ ev, false) /\
+    gevs S c (limits_on c) (s_ncalls s) (GLive kn false) ev g' /\ ginv c S i g' st' /\
+    s_ncalls st' = (s_ncalls s + nsg ev)%nat.
+Proof.
+  intros S i c s evn l0 h kn o n g HS Hex Hcfg Hh Ho Hn HoS Hb.
+  pose proof Hh as (Hcl & Hq & Hkn).
+  assert (Hlo : 0 <= lo_of kn).
+  { destruct kn as [(A, p)|]; cbn [lo_of]; [|lia]. destruct Hkn as (_ & HA & _ & Hs). apply sok_range in Hs. lia. }
+  unfold asm_queue_body. rewrite Hb.
+  set (r := check_overlap fullv (h_queue h) (sub S o n) (sq i o) (g_ts g) (g_rst g || g_fin g) true).
+  destruct (check_overlap_queue_full S i (lo_of kn) (h_queue h) o n (g_ts g) (g_rst g || g_fin g))
+    as (Hp & Hq'); try lia; try assumption.
+  fold r in Hp, Hq'. rewrite Hp. rewrite Hcfg.
+  assert (Hstay : forall used1 pages1,
+    exists st' ev g',
+      (mkSt c (s_exists s) (mkHalf pages1 (h_saved h) (c2_queue r) (h_next h) (h_seen h) (h_closed h))
+            (s_rev_closed s) (s_rev_seen s) used1 (s_sid s) (s_ncalls s),
+       evn ++ map ETag l0 ++ map ETag (c2_tags r), false) = (st', evn ++ ev, false) /\
+      gevs S c (limits_on c) (s_ncalls s) (GLive kn false) ev g' /\ ginv c S i g' st' /\
+      s_ncalls st' = (s_ncalls s + nsg ev)%nat).
+  { intros used1 pages1. eexists. exists (map ETag (l0 ++ c2_tags r)), (GLive kn false).
+    split; [rewrite map_app; reflexivity|]. split; [apply gevs_tags|]. split.
+    - unfold ginv. cbn [s_cfg s_exists s_half h_closed]. split; [reflexivity|]. split; [exact Hex|]. split; [exact Hcl|].
+      intros _. unfold half_ok. cbn [h_closed h_queue h_next h_saved]. auto.
+    - rewrite nsg_tags. cbn [s_ncalls]. lia. }
+  destruct (limit_hit c (h_pages h - c2_rel r + c2_added r) (s_used s - c2_rel r + c2_added r)) eqn:Elim.
+  2: apply Hstay.
+  destruct (c2_queue r) as [|p1 q'] eqn:Eq.
+  { apply Hstay. }
+  cbn [qok] in Hq'. destruct Hq' as (o1 & Ho1 & Ho1e & Hpg & Hq1').
+  destruct (deliver S i c s
+              (mkHalf (h_pages h - c2_rel r + c2_added r) (h_saved h) q' (h_next h) (h_seen h) (h_closed h))
+              (s_used s - c2_rel r + c2_added r) (CPage p1) o1 kn (limits_on c) HS Hex Hcfg)
+    as (s1 & e' & ev & g' & Hsend & Hgev & Hnsg & He1 & He2 & Hc1 & Hnc & _ & _ & Hpost).
+  { exact Hcl. }
+  { apply pg_spg in Hpg. exact Hpg. }
+  { cbn [h_queue]. exact Hq1'. }
+  { destruct kn as [(A, p)|]; cbn [known_ok lo_of h_next h_saved] in *; [|exact Hkn].
+    destruct Hkn as (H1 & H2 & H3 & H4). auto. }
+  { destruct kn as [(A, p)|]; [|exact I]. right. eapply limit_hit_on; eauto. }
+  rewrite Hsend. rewrite sq_not_invalid. cbn [v_fin fullv negb]. rewrite andb_false_r.
+  eexists. exists (map ETag (l0 ++ c2_tags r) ++ ETag 12 :: ev), g'.
+  split; [rewrite map_app, <- !app_assoc; reflexivity|]. split.
+  - eapply gevs_app; [apply gevs_tags|]. rewrite nsg_tags, Nat.add_0_r.
+    cbn [gevs is_sg]. eexists. split; [reflexivity|exact Hgev].
+  - split.
+    + apply (after_deliver S i c s1 e' g'); try assumption.
+      destruct g' as [|kn' en]; [exact Hpost|].
+      destruct Hpost as (H1 & H2 & _ & A' & Hk & H3). split; [exact H1|]. split; [exact H2|].
+      exists A'. split; [exact Hk|]. intros Hen. destruct (H3 Hen) as (_ & HA & Hs & Hqq & _). auto.
+    + cbn [set_half s_ncalls]. rewrite Hnc. rewrite nsg_app, nsg_tags. unfold nsg in *. cbn [filter is_sg length] in *.
+      fold (nsg ev). unfold nsg. lia.
+Qed.
